@@ -9,6 +9,7 @@ import (
 	"hash/fnv"
 	"os"
 	"path/filepath"
+	"runtime"
 	"runtime/debug"
 	"sort"
 	"strconv"
@@ -160,6 +161,26 @@ func Start(id, level string) *Run {
 	}
 	r.loadKnown()
 	debug.SetTraceback("all")
+	// A generous wall-clock watchdog around the whole run: a monitor that waits for an event that never comes (a hook no
+	// longer reached from the goroutine it is expected on, a child that never answers) must not hang for ever. Its firing
+	// decides nothing about the property: what was observed so far is written out and the verdict is inconclusive.
+	limit := 45 * time.Minute
+	if r.Tier == "thorough" {
+		limit = 8 * time.Hour
+	}
+	if s := os.Getenv("VERIF_WATCHDOG_S"); s != "" {
+		if v, err := strconv.Atoi(s); err == nil && v > 0 {
+			limit = time.Duration(v) * time.Second
+		}
+	}
+	go func() {
+		time.Sleep(limit)
+		buf := make([]byte, 1<<20)
+		n := runtime.Stack(buf, true)
+		os.WriteFile(filepath.Join(os.TempDir(), fmt.Sprintf("verif-watchdog-%s.stacks", id)), buf[:n], 0o644)
+		r.Inconclusive(fmt.Sprintf("the run-wide watchdog fired after %v: some monitor was still waiting (goroutine dump in %s)", limit, filepath.Join(os.TempDir(), fmt.Sprintf("verif-watchdog-%s.stacks", id))))
+		r.Finish()
+	}()
 	return r
 }
 
